@@ -45,6 +45,41 @@ Definition table_complete (t : list kwent) : bool :=
   forallb (has t "minimize") ["func"; "x0"; "args"; "method"; "options"] &&
   forallb (has t "minimize_scalar") ["func"; "args"; "method"].
 
+(** Values handed over unmodified.  [idt] (generated: [SVGen.C18_kw.kw_identity]) lists the
+    parameters whose argument expression at the SciPy call is the bare parameter, never re-bound
+    in the wrapper: SciPy receives the very object the caller passed -- in particular a bracket
+    or bounds tuple keeps its arity (a three-point bracket (xa, xb, xc) stays three-point).
+    Only the objective and the starting point are legitimately re-expressed by the wrappers. *)
+Definition transformed_by_design : list string := ["func"; "x0"].
+
+Definition in_identity (idt : list (string * string)) (e : kwent) : bool :=
+  existsb (fun p => String.eqb (fst p) (kw_fun e) && String.eqb (snd p) (kw_name e)) idt.
+
+Definition ident_ok (idt : list (string * string)) (e : kwent) : bool :=
+  match kw_disp e with
+  | Forwarded _ => existsb (String.eqb (kw_name e)) transformed_by_design || in_identity idt e
+  | _ => true
+  end.
+
+Definition identity_ok (idt : list (string * string)) (t : list kwent) : bool :=
+  forallb (ident_ok idt) t.
+
+Lemma identity_ok_spec idt t : identity_ok idt t = true ->
+  forall e ts, In e t -> kw_disp e = Forwarded ts ->
+    kw_name e <> "func" -> kw_name e <> "x0" -> In (kw_fun e, kw_name e) idt.
+Proof.
+  unfold identity_ok. rewrite forallb_forall. intros H e ts He D Nf Nx.
+  specialize (H e He). unfold ident_ok in H. rewrite D in H.
+  apply orb_true_iff in H. destruct H as [H|H].
+  - cbn in H. apply orb_true_iff in H. destruct H as [H|H].
+    + apply String.eqb_eq in H. congruence.
+    + apply orb_true_iff in H. destruct H as [H|H]; [|discriminate].
+      apply String.eqb_eq in H. congruence.
+  - unfold in_identity in H. apply existsb_exists in H. destruct H as ([f n] & Hin & E).
+    apply andb_true_iff in E. destruct E as [E1 E2]. cbn [fst snd] in *.
+    apply String.eqb_eq in E1. apply String.eqb_eq in E2. subst. exact Hin.
+Qed.
+
 Lemma table_ok_spec t : table_ok t = true ->
   forall e, In e t -> is_known e = false ->
     kw_disp e <> Dropped /\
